@@ -11,6 +11,7 @@ The statement names mechanisms, each with a structural necessary condition that 
  7. the loop-exit comparison of NEXT, GOSUB's return location, cell addressing
  8. R-RESUME: every position a statement can be resumed at has a dispatch arm
 """
+from lib import calls_through
 from lib import (sfx, get_fn, callers_of, expr_has_field, on_ok_arm, strip_expr, strip_refs, show, expr_calls, expr_params, aggregates, path_records,
                  bool_switch_true_target, exclusive_region, region_aggregates, controlling_switches)
 import common
@@ -408,8 +409,112 @@ def run(ck, F, E):
                    "unlocated errors get the previous token's location (DATA type mismatches the DATA item's)",
                    "populate_error_location no longer uses get_prev_location / get_data_location", pe.span)
 
+    # ... and every error an entry point hands to the host has been through it: the entry points wrap their work in
+    # postprocess_result, whose Err arm locates the error before passing it on (no path returns Err without the call)
+    pp = get_fn(ck, F, "Interpreter::postprocess_result")
+    if pp is not None:
+        bad_paths = 0
+        n_err = 0
+        for r in path_records(pp):
+            first = [d[2] for d in r["decisions"] if d[2] in ("Ok", "Err")][:1]   # later tests of the same value are drop bookkeeping
+            if first != ["Err"]:
+                continue
+            n_err += 1
+            if not any(c.callee.endswith("populate_error_location") for c in r["calls"]):
+                bad_paths += 1
+        ck.require(n_err > 0 and bad_paths == 0, "C03:ERRLINE:postprocess-locates", "error line attribution",
+                   "every Err path of postprocess_result calls populate_error_location (%d path(s))" % n_err,
+                   "postprocess_result passes an error on without locating it (%d of %d Err paths): run-time errors reach the host "
+                   "without their line number" % (bad_paths, n_err), pp.span)
+        wrapped = []
+        for ep in ("Interpreter::start_evaluating", "Interpreter::continue_evaluating"):
+            eb = get_fn(ck, F, ep)
+            if eb is not None:
+                d = eb.unique_def(0)
+                wrapped.append(d is not None and d[0] == "call" and d[2].callee.endswith("postprocess_result") or
+                               bool(calls_through(F, eb, "postprocess_result")))
+        ck.require(all(wrapped) and len(wrapped) == 2, "C03:ERRLINE:entry-points-wrapped", "error line attribution",
+                   "start_evaluating and continue_evaluating return through postprocess_result",
+                   "an entry point no longer returns through postprocess_result: its errors carry no line number", pp.span)
+
+    print_separator_rule(ck, F)
+    if_skip_rule(ck, F)
+
     # ---- (8)
     C06.resume_rule(ck, F, "C03")
+
+
+def print_separator_rule(ck, F):
+    """"PRINT with ; and , separators": the line feed is withheld exactly when the last thing PRINT consumed was a semicolon.
+    Per trip round the item loop of evaluate_print_statement: the trip that consumes `;` leaves the flag set, every other
+    trip (an expression, a comma) leaves it clear.  The flag is found as the bool local whose final value differs between
+    trips (drop flags end every trip cleared)."""
+    from lib import iteration_paths
+    b = get_fn(ck, F, "StatementEvaluator::evaluate_print_statement")
+    if b is None:
+        return
+    trips = []
+    for r in path_records(b, paths=iteration_paths(b)):
+        tok = None
+        for d in r["decisions"]:
+            if "peek_next_token" in d[0] or "next_token" in d[0]:
+                if d[2] not in ("Some", "None"):
+                    tok = d[2]
+        last = {}
+        for x in r["path"][:-1]:
+            for st in b.blocks[x]["stmts"]:
+                if st["k"] == "assign" and st["rv"]["k"] == "use" and st["rv"]["op"]["k"] == "const" and \
+                        st["rv"]["op"].get("ty") == "bool" and not st["place"]["proj"]:
+                    last[st["place"]["local"]] = st["rv"]["op"].get("int")
+        trips.append((tok, last))
+    if not trips:
+        ck.missing("C03:PRINT:newline-iff-no-trailing-semicolon", "the item loop of evaluate_print_statement")
+        return
+    flags = [l for l in set().union(*[set(t[1]) for t in trips]) if len({t[1].get(l) for t in trips}) > 1]
+    semi = [t for t in trips if t[0] == "Semicolon"]
+    why = None
+    if not semi:
+        why = "no trip of the item loop is selected by a semicolon"
+    elif not flags:
+        # a flag computed from the token (`flag = token == Token::Semicolon`) is not a constant store: not decided here
+        loop_blocks = set().union(*b.natural_loops().values()) if b.natural_loops() else set()
+        computed = any(st["k"] == "assign" and not st["place"]["proj"] and b.local_ty(st["place"]["local"]) == "bool" and
+                       st["rv"]["k"] in ("binop", "unop", "use") and not (st["rv"]["k"] == "use" and st["rv"]["op"]["k"] == "const")
+                       and b.local_name(st["place"]["local"])
+                       for x in loop_blocks for st in b.blocks[x]["stmts"])
+        if computed:
+            ck.ok("C03:PRINT:newline-iff-no-trailing-semicolon", "PRINT separators",
+                  "the flag is computed from the token rather than stored as constants: not decided by this rule", nontrivial=False)
+            return
+        why = "no flag distinguishes the trip that consumed a semicolon from the others"
+    else:
+        good = [l for l in flags if all(t[1].get(l) == 1 for t in semi) and all(t[1].get(l) == 0 for t in trips if t[0] != "Semicolon")]
+        if not good:
+            other = sorted({str(t[0] if not isinstance(t[0], tuple) else "an expression") for t in trips
+                            if t[0] != "Semicolon" and any(t[1].get(l) != 0 for l in flags)})
+            why = "the flag is not cleared by the trip that consumes %s (or not set by the semicolon trip)" % (", ".join(other) or "?")
+    ck.require(why is None, "C03:PRINT:newline-iff-no-trailing-semicolon", "PRINT separators",
+               "%d trips: the semicolon trip sets the flag, the %d others clear it" % (len(trips), len(trips) - len(semi)),
+               "evaluate_print_statement: %s -- a PRINT whose last separator is not a semicolon loses its line feed (or one that ends "
+               "in a semicolon gets one)" % why, b.span)
+
+
+def if_skip_rule(ck, F):
+    """A false IF skips its THEN clause; a colon met while skipping ends the statement and with it the line (the rest of the
+    line belongs to the THEN clause), so nothing after it -- in particular no ELSE of a nested IF further along the line -- is
+    looked at: the trip of the skip loop selected by `:` discards the remaining tokens."""
+    from lib import iteration_paths
+    b = get_fn(ck, F, "StatementEvaluator::evaluate_if_statement")
+    if b is None:
+        return
+    recs = path_records(b, paths=iteration_paths(b)) + path_records(b)
+    colon = [r for r in recs if any(d[2] == "Colon" for d in r["decisions"])]
+    bad = [r for r in colon if not any(c.callee.endswith("discard_remaining_tokens") for c in r["calls"])]
+    ck.require(bool(colon) and not bad, "C03:IF:colon-ends-the-skipped-clause", "IF/ELSE token skipping",
+               "%d path(s) selected by a colon while skipping: each discards the rest of the line" % len(colon),
+               "evaluate_if_statement: while skipping a false THEN clause, a colon no longer ends the line (%d of %d paths go on "
+               "scanning): an ELSE further along the line -- belonging to a nested IF inside the skipped clause -- is executed" %
+               (len(bad), len(colon)), b.span)
 
 
 def next_exit(ck, F, el):
